@@ -24,6 +24,12 @@ Ops
 * `depth c d`            `snapshot(d)` of the book in cell `c`
 
 Observation keys carry the cell number (`b0`, `a0`, …) so that the spec can print a subset.
+
+`vw<c>` is the panic-aware observation of `volume_weighed_mid_price` (`panic` where the `Decimal`
+division by zero panics): the model prints `TBook.vwMidChecked`, the spec `vwMidCheckedSpec` of the
+price → amount maps of a clean cell (`spec_observables`: they agree). The spec keeps no `BookMap`:
+`found` / `keys` and the routing of `run` come from the log of associations made by the ops
+(`AssocLog`; `map_refines_log`, `manager_refines_log_spec`).
 -/
 namespace BarterModel.Driver.C05M
 open BarterModel.Driver BarterModel.Book BarterModel.BookManager
@@ -96,6 +102,12 @@ def depths : List Nat := [0, 1, 2, 5]
 def fmtBookLine (seq : Nat) (te : Option Int) (bids asks : List Level) : String :=
   toString seq ++ " " ++ fmtTime te ++ " " ++ fmtLevels bids ++ " | " ++ fmtLevels asks
 
+/-- the panic-aware observation of `volume_weighed_mid_price`: `none` = the call panics (model) /
+the micro-price is undefined (spec); the harness prints `panic` when `catch_unwind` catches one -/
+def fmtVwChecked : Option (Option Rat) → String
+  | none => "panic"
+  | some v => fmtOptRatApprox v
+
 /-- the observation block of one cell; `sfx` is the cell number -/
 def obsFull (sfx : String) (b : TBook) : List String :=
   [ "h" ++ sfx ++ " " ++ toString b.sequence ++ " " ++ fmtTime b.timeEngine,
@@ -106,7 +118,7 @@ def obsFull (sfx : String) (b : TBook) : List String :=
     "bb" ++ sfx ++ " " ++ (match best b.bids with | some l => fmtLevel l | none => "none"),
     "ba" ++ sfx ++ " " ++ (match best b.asks with | some l => fmtLevel l | none => "none"),
     "mid" ++ sfx ++ " " ++ fmtOptRatApprox b.midPrice,
-    "vw" ++ sfx ++ " " ++ (if b.vwMidPanics then "panic" else fmtOptRatApprox b.volumeWeightedMidPrice),
+    "vw" ++ sfx ++ " " ++ fmtVwChecked b.vwMidChecked,
     "def" ++ sfx ++ " " ++ fmtBool (decide (b = TBook.default)) ]
 
 def obsSnapshots (b : TBook) : List String :=
@@ -211,9 +223,13 @@ def model : Drv MSt where
 
 /-! ### spec -/
 
+/-- The spec side keeps no `BookMap`: the map is the log of `(key, cell)` associations in the order
+in which the ops made them (`AssocLog`, `Model/BookManager.lean`), with a flag telling whether it is
+an `OrderBookMapMulti` (only that one has `insert`). `find` / `keys` / the routing of the run are
+answered from the log (`AssocLog.find`: the last association of the key; `AssocLog.keys`). -/
 structure SSt where
   cells : List SCell
-  map : Option BookMap
+  map : Option (Bool × AssocLog)
   queue : List TStreamEvent
 
 /-- what the specification says about one cell: the copied fields, the price sequences of both
@@ -232,7 +248,7 @@ def obsSpec (sfx : String) (c : SCell) : List String :=
       "a" ++ sfx ++ " " ++ fmtLevels (PMap.levels .asks sp.asks),
       "bb" ++ sfx ++ " " ++ (match PMap.best .bids sp.bids with | some l => fmtLevel l | none => "none"),
       "ba" ++ sfx ++ " " ++ (match PMap.best .asks sp.asks with | some l => fmtLevel l | none => "none"),
-      "vw" ++ sfx ++ " " ++ fmtOptRatApprox sp.volumeWeightedMidPrice ]
+      "vw" ++ sfx ++ " " ++ fmtVwChecked (vwMidCheckedSpec sp) ]
 
 /-- depth-limited snapshot, abstractly: the `d` best prices of each side (and, for a clean cell,
 the `d` best levels), same sequence and time -/
@@ -275,28 +291,28 @@ def spec : Drv SSt where
     | ["single", k, c] =>
       match k.toNat?, c.toNat? with
       | some k, some c =>
-        if c < s.cells.length then ({ s with map := some (.single k c) }, []) else (s, ["bad-op"])
+        if c < s.cells.length then ({ s with map := some (false, [(k, c)]) }, []) else (s, ["bad-op"])
       | _, _ => (s, ["bad-op"])
     | "multi" :: rest =>
       match parsePairs? rest with
       | some pairs =>
-        if pairs.all (fun kc => kc.2 < s.cells.length) then ({ s with map := some (multiOf pairs) }, [])
+        if pairs.all (fun kc => kc.2 < s.cells.length) then ({ s with map := some (true, pairs) }, [])
         else (s, ["bad-op"])
       | none => (s, ["bad-op"])
     | ["insert", k, c] =>
       match k.toNat?, c.toNat?, s.map with
-      | some k, some c, some (.multi books) =>
-        if c < s.cells.length then ({ s with map := some ((BookMap.multi books).insert k c) }, [])
+      | some k, some c, some (true, log) =>
+        if c < s.cells.length then ({ s with map := some (true, log ++ [(k, c)]) }, [])
         else (s, ["bad-op"])
       | _, _, _ => (s, ["bad-op"])
     | ["find", k] =>
       match k.toNat?, s.map with
-      | some k, some m =>
-        (s, ["found " ++ (match m.find k with | some c => toString c | none => "none")])
+      | some k, some (_, log) =>
+        (s, ["found " ++ (match AssocLog.find log k with | some c => toString c | none => "none")])
       | _, _ => (s, ["bad-op"])
     | ["keys"] =>
       match s.map with
-      | some m => (s, ["keys " ++ " ".intercalate ((sortNat m.keys).map toString)])
+      | some (_, log) => (s, ["keys " ++ " ".intercalate ((sortNat (AssocLog.keys log)).map toString)])
       | none => (s, ["bad-op"])
     | ["re"] => ({ s with queue := s.queue ++ [.reconnecting] }, [])
     | "snap" :: k :: body =>
@@ -310,8 +326,8 @@ def spec : Drv SSt where
     | [r] =>
       if r != "run" && r != "runc" then (s, ["bad-op"]) else
       match s.map with
-      | some m =>
-        let cells := specRun m s.cells s.queue
+      | some (_, log) =>
+        let cells := specRunBy (AssocLog.find log) s.cells s.queue
         ({ s with cells := cells, queue := [] },
           (cells.zipIdx.map fun (c, i) => obsSpec (toString i) c).flatten)
       | none => (s, ["bad-op"])
